@@ -497,8 +497,9 @@ def _extra_worker(arg):
     return out
 
 
-def run_extra(ctx):
-    """Returns (results, traces).  Reports C01 violations (eager != graph) itself."""
+def run_extra(ctx, owner: str = "C01"):
+    """Returns (results, traces).  Reports the violations itself: C01 owns eager != graph, C02 owns 'accepted but the model / the
+    function call cannot be built or loaded' (the emitted proto is not valid)."""
     from . import extra_programs
 
     srcs = extra_programs.sources()
@@ -522,6 +523,11 @@ def run_extra(ctx):
             continue
         for rec in r["runs"]:
             ctx.add("evaluations")
+            if owner == "C02":
+                # validity only: the model was loaded by onnxruntime above; the function-call form must pass the checker
+                if "CHECKER:" in rec.get("call_err", ""):
+                    ctx.report({"program": name, "src": src, "run": rec}, f"extra program {name}: the FunctionProto called from a model is rejected: {rec['call_err']}\n{src}")
+                continue
             if "eager_err" in rec:
                 # eager mode itself refuses (e.g. returns a Python int): nothing to compare with
                 ctx.add("extra_eager_errors")
